@@ -695,8 +695,13 @@ func c02twins(rep *vh.Report, r *vh.RNG) {
 // of their own (the channels of a node that all come up together): the very first frames, of one and the same message
 // type, arrive on all of them at the same instant. Each is a well-formed frame with the correct checksum: delivered.
 func c02freshShared(rep *vh.Report, r *vh.RNG, genv *gateEnv) {
-	sorted := genv.sorted()
-	n := vh.Pick(400, 6000)
+	sorted := append([]*msgInfo(nil), genv.sorted()...)
+	// the types with the most fields: whatever a table computes lazily at first use takes longest for them
+	sort.SliceStable(sorted, func(i, j int) bool { return len(sorted[i].Layout.Fields) > len(sorted[j].Layout.Fields) })
+	if len(sorted) > 12 {
+		sorted = sorted[:12]
+	}
+	n := vh.Pick(2500, 20000)
 	for it := 0; it < n && rep.NViolations() < 20; it++ {
 		mi := sorted[r.Intn(len(sorted))]
 		drw, err := newDialectRW(mi.Msg)
@@ -705,7 +710,7 @@ func c02freshShared(rep *vh.Report, r *vh.RNG, genv *gateEnv) {
 		}
 		sp, _ := validFrame(r, mi, 2, 0, false, nil)
 		wire := ref.Serialize(sp)
-		const G = 4
+		const G = 8
 		var start, done sync.WaitGroup
 		start.Add(1)
 		errs := make([]error, G)
